@@ -161,7 +161,7 @@ CLAIMS.update({
  'C14': dict(
     text='Proof (Coq), partial + correspondence. Theorems: _materialize_fnml_template substitutes the raw row values (fnml_template_is_substitution); for an execution over constants, references and templates the values '
          'for a row are exactly the function applied to that row\'s arguments -- none for a null result or null token, one per element of a list result, failure iff the function raises '
-         '(execution_is_function_application_partial); a rule with a function-valued map does not depend on the other rules (execution_rule_independent_of_other_rules; partition independence is C02); contracts of '
+         '(execution_is_function_application_partial) and every value becomes exactly the term the generation rules give (execution_terms_are_rule_terms_partial); a rule with a function-valued map does not depend on the other rules (execution_rule_independent_of_other_rules; partition independence is C02); contracts of '
          'split_explode / reverse / toUpperCase for all strings. Correspondence: compositions of 8 built-ins (parameters REGENERATED from bif_dict) and 5 UDFs, nested executions, all positions, three modes, '
          'and each modelled built-in against the real function.',
     note='Partial: nested executions by correspondence only. Two genuine defects repaired (fix: 07bcd78, 8a50972). Known findings: function-valued graph map under N-TRIPLES, rule without references.',
